@@ -48,8 +48,8 @@ func (p *StablePool) Put(x interface{}) {
 	p.putIndex %= len(p.pool)
 
 	// iterate the whole pool once to find a free spot
-	stopAt := p.putIndex - 1
-	for i := p.putIndex; i != stopAt; i = (i + 1) % len(p.pool) {
+	for n := 0; n < len(p.pool); n++ {
+		i := (p.putIndex + n) % len(p.pool)
 		if p.pool[i] == nil {
 			p.pool[i] = x
 			p.cnt++
